@@ -78,6 +78,9 @@ def build_problem(case):
     if case['kind'] == 'single':
         P, feats = wl.single_assembly(
             rng, coolant_pool=True, max_rings=(12 if case.get('big') else 8))
+        if not feats.get('lf') and rng.random() < 0.12:
+            # a top region that gets the last axial step only
+            feats['thin_top'] = wl.thin_top_region(rng, P, 'a')
         if rng.random() < 0.15:
             # written in inches, core height and region bounds at half-inch
             # values
